@@ -522,7 +522,9 @@ VSsetname(int32       vkey, /* IN: Vdata key */
 
     vs->marked = TRUE; /* mark vdata as being modified */
 
-    if (curr_len < slen)
+    /* a shorter string changes the header size as well: the old, longer header element must not be
+       rewritten in place, because the header is decoded from both ends of the element */
+    if (curr_len != slen)
         vs->new_h_sz = TRUE; /* mark vdata header size being changed */
 
 done:
@@ -586,7 +588,9 @@ VSsetclass(int32       vkey, /* IN: vdata key */
 
     vs->marked = TRUE; /* mark vdata as being modified */
 
-    if (curr_len < slen)
+    /* a shorter string changes the header size as well: the old, longer header element must not be
+       rewritten in place, because the header is decoded from both ends of the element */
+    if (curr_len != slen)
         vs->new_h_sz = TRUE; /* mark vdata header size being changed */
 
 done:
